@@ -17,11 +17,11 @@ Ltac all_ascii c :=
    being accumulated (sa = seeking_anchor_mark, sc = seeking_collector_operator) *)
 Definition Kst (segs0 : list seg) (acc : string) (ty : option segtype) (sattr0 : string)
            (sa sc : bool) : pst :=
-  mkpst segs0 acc ty [] false false None sattr0 None false false 0 CNone sc None sa 0.
+  mkpst segs0 acc ty [] false false None sattr0 None false false 0 CNone sc None sa 0 false.
 (* the same with escape_next set *)
 Definition KstE (segs0 : list seg) (acc : string) (ty : option segtype) (sattr0 : string)
            (sa sc : bool) : pst :=
-  mkpst segs0 acc ty [] true false None sattr0 None false false 0 CNone sc None sa 0.
+  mkpst segs0 acc ty [] true false None sattr0 None false false 0 CNone sc None sa 0 false.
 
 Definition top_plain (sepc c : ascii) : bool :=
   negb (mem_ascii c ["\"; " "; "'"; """"; "("; "["; "]"; sepc]%char).
@@ -111,25 +111,28 @@ Section EscRun.
 End EscRun.
 
 (* ---- the accumulating state of every mode: only the stack shape is fixed ---- *)
-Definition Gst (e : bool) (segs0 : list seg) (ty : option segtype) (stk : list ascii) (sinv0 : bool)
+(* d = search_term_demarcated (since the fix of F21): true only between the
+   quote that opens a search term and the closing bracket *)
+Definition GstD (d e : bool) (segs0 : list seg) (ty : option segtype) (stk : list ascii) (sinv0 : bool)
            (smeth0 : option smethod) (sattr0 : string) (skw0 : option keyword) (cl : nat) (op : cop)
            (acc : string) (sa sc : bool) : pst :=
-  mkpst segs0 acc ty stk e sinv0 smeth0 sattr0 skw0 false false cl op sc None sa (List.length stk).
+  mkpst segs0 acc ty stk e sinv0 smeth0 sattr0 skw0 false false cl op sc None sa (List.length stk) d.
+Notation Gst := (GstD false).
 
 Lemma Kst_Gst segs0 acc ty sattr0 sa sc :
   Kst segs0 acc ty sattr0 sa sc = Gst false segs0 ty [] false None sattr0 None 0 CNone acc sa sc.
 Proof. reflexivity. Qed.
 
 (* the back-slash and the escaped character, in every mode *)
-Lemma bs_step strip sepc segs0 ty stk sinv0 smeth0 sattr0 skw0 cl op acc sa sc :
-  step strip sepc (Gst false segs0 ty stk sinv0 smeth0 sattr0 skw0 cl op acc sa sc) "\"%char
-  = Ok (if strip then Gst true segs0 ty stk sinv0 smeth0 sattr0 skw0 cl op acc sa sc
-        else Gst true segs0 ty stk sinv0 smeth0 sattr0 skw0 cl op (snoc acc "\"%char) false false).
+Lemma bs_step strip sepc d segs0 ty stk sinv0 smeth0 sattr0 skw0 cl op acc sa sc :
+  step strip sepc (GstD d false segs0 ty stk sinv0 smeth0 sattr0 skw0 cl op acc sa sc) "\"%char
+  = Ok (if strip then GstD d true segs0 ty stk sinv0 smeth0 sattr0 skw0 cl op acc sa sc
+        else GstD d true segs0 ty stk sinv0 smeth0 sattr0 skw0 cl op (snoc acc "\"%char) false false).
 Proof. destruct strip; reflexivity. Qed.
 
-Lemma esc_step strip sepc segs0 ty stk sinv0 smeth0 sattr0 skw0 cl op acc sa sc c :
-  step strip sepc (Gst true segs0 ty stk sinv0 smeth0 sattr0 skw0 cl op acc sa sc) c
-  = Ok (Gst false segs0 ty stk sinv0 smeth0 sattr0 skw0 cl op (snoc acc c) false false).
+Lemma esc_step strip sepc d segs0 ty stk sinv0 smeth0 sattr0 skw0 cl op acc sa sc c :
+  step strip sepc (GstD d true segs0 ty stk sinv0 smeth0 sattr0 skw0 cl op acc sa sc) c
+  = Ok (GstD d false segs0 ty stk sinv0 smeth0 sattr0 skw0 cl op (snoc acc c) false false).
 Proof. reflexivity. Qed.
 
 Ltac plain256 H c :=
@@ -166,12 +169,12 @@ Proof.
 Qed.
 
 (* inside a quote pair inside [ ] *)
-Lemma plain_bquoted strip sepc q segs0 ty sinv0 smeth0 sattr0 acc sa sc c :
+Lemma plain_bquoted strip sepc d q segs0 ty sinv0 smeth0 sattr0 acc sa sc c :
   mem_ascii c quoted_specials = false -> first_ok sa sc c = true ->
-  step strip sepc (Gst false segs0 ty [qchar q; "["%char] sinv0 smeth0 sattr0 None 0 CNone acc sa sc) c
-  = Ok (Gst false segs0 ty [qchar q; "["%char] sinv0 smeth0 sattr0 None 0 CNone (snoc acc c) false false).
+  step strip sepc (GstD d false segs0 ty [qchar q; "["%char] sinv0 smeth0 sattr0 None 0 CNone acc sa sc) c
+  = Ok (GstD d false segs0 ty [qchar q; "["%char] sinv0 smeth0 sattr0 None 0 CNone (snoc acc c) false false).
 Proof.
-  intros H F. destruct q, sa, sc; all_ascii c; vm_compute in H; try discriminate H;
+  intros H F. destruct d, q, sa, sc; all_ascii c; vm_compute in H; try discriminate H;
     vm_compute in F; try discriminate F; vm_compute; reflexivity.
 Qed.
 
